@@ -888,6 +888,14 @@ def r13_absent_values_guarded(ctx, res):
             elif isinstance(a, (ast.List, ast.Tuple)):
                 elts = [(e, set()) for e in a.elts]
             for e, filt in elts:
+                if not isinstance(e, ast.Name):
+                    # the value goes through a function / expression first (`_frame_id(sbid, frame)`): examined, not a bare use
+                    inner = [x for x in ast.walk(e) if isinstance(x, ast.Name) and (f.key, x.id) in absent_names]
+                    if inner:
+                        n += 1
+                        q, i = absent_names[(f.key, inner[0].id)]
+                        res.inst(f'absent-ordered:{f.qualname}:{inner[0].id}<-{q}[{i}]', f.module.loc(c), f'`{norm(c)[:70]}`; passed through `{norm(e)[:40]}`')
+                    continue
                 if isinstance(e, ast.Name) and (f.key, e.id) in absent_names:
                     n += 1
                     q, i = absent_names[(f.key, e.id)]
@@ -983,6 +991,13 @@ def r15_writer_metadata_complete(ctx, res):
     from .c02 import r4_metadata_tables
     r4_metadata_tables(ctx, res)
 
+def r16_exported_rows_as_prescribed(ctx, res):
+    """the exporter rebuilds a lexicon from the rows the query layer hands it: those rows have the prescribed columns and come
+    from the prescribed joins (C01-R7) - an inner join added to get_lexicon_dependencies drops the <Requires> of every provider
+    that is not installed."""
+    from .c01 import r7_readers
+    r7_readers(ctx, res)
+
 RULES = [
     ('C03-R1', r1_coverage, 75),
     ('C03-R2', r2_guard_consistency, 3),
@@ -999,4 +1014,5 @@ RULES = [
     ('C03-R13', r13_absent_values_guarded, 1),
     ('C03-R14', r14_writer_tests_truth_not_presence, 15),
     ('C03-R15', r15_writer_metadata_complete, 3),
+    ('C03-R16', r16_exported_rows_as_prescribed, 40),
 ]
